@@ -1008,9 +1008,16 @@ def sec_landscape_upsampled(rec, kind="zncc", box=(6, 5, 7), axis=0, u=4, others
         rec.fact(f"{tag}/runs", False, key=f"C04/{kind}/landscape-upsampled-raises", detail={"exc": repr(paths[0].exc)[:200] if paths else "no path"}, reproduced=rpl({})[0])
 
 
+def sec_loader_units(rec, patches=None):
+    """the loaders hand the model max_shifts in pixels of their own scale (executed by C01's units section): a wrong window clips or widens the search range"""
+    from .c01 import sec_units
+
+    sec_units(rec, patches=patches)
+
+
 def sections(tier):
     q = quick(tier)
-    secs = []
+    secs = [("loader-units", "checks.c04", "sec_loader_units", {})]
     sem_shapes = (((1, 1, 3), 2), ((1, 2, 2), 1), ((2, 1, 2), 0)) if q else (((1, 1, 3), 2), ((1, 2, 2), 1), ((2, 1, 2), 0), ((1, 1, 4), 2), ((3, 1, 1), 0), ((1, 3, 2), 1), ((2, 2, 2), 0), ((2, 2, 3), 2), ((1, 2, 4), 2))
     for kind in ("zncc", "ncc"):
         for shape, axis in sem_shapes:
